@@ -22,23 +22,42 @@ import c05_sweep
 
 THEOREMS = []     # filled below, after the definitions (kept in one place)
 TRUSTED = [
-    'hand-written model coq/C05/Model.v (modelled, tied by execution only)',
-    'surfaces are abstract in the model: the law sense (tr_surf t s) p = '
-    'sense s (inv t p) is a Section hypothesis of the theorems (numeric '
-    'content: C04); the tie observes which transformation was applied to '
-    'which surface on planes, numerically (1e-9)',
-    'dic_surf_t4 entries of generated surfaces, Progress output: not modelled',
+    'hand-written model coq/C05/Model.v: tied by execution to the code '
+    '(tie:fill, tie:fill_kw, tie:cell_kw), not derived from it',
+    'the generic theorems keep the interface law sense (tr_surf t s) p = '
+    'sense s (inv t p) and the cache-key law as hypotheses; the *_linked '
+    'theorems discharge both with C04 (LinkC04.v: motions with exactly '
+    'orthonormal rows, dictionary entries of the kinds C04 covers; '
+    'LinkC04C06.v: the same for the lattice chain), so what is trusted '
+    'there is C04\'s model of transformation() and its own ties; the tie '
+    'of C05 observes which transformation reached which surface on planes '
+    '(1e-9)',
+    'develop_lattice: C06\'s model and ties (elements), composed here '
+    'through C06.LinkC05.develop_state; hexagonal base vectors: C07',
+    'C05_precedence_located_linked: norm = token image of C04\'s '
+    'parse_fill_tr and never empty (hypotheses of that theorem)',
+    'dic_surf_t4 entries of generated surfaces, Progress output, '
+    'pot_complement / pot_convert (conversion of the generated cells): '
+    'not modelled here (sweep only; C11, C01, C13)',
     'harness: generators, mcnpref / t4eval oracles, impl.T4File reader, '
     'PEG shim replacing TatSu',
 ]
 ASSUMPTIONS = [
-    'the counters start above every existing key (construct_volume_t4 '
-    'guarantees it); cell references are acyclic and no universe fills '
-    'itself (otherwise Python raises RecursionError = the model\'s EFuel)',
-    'C05_pot_fill_*: every universe is a partition (universe_partition), '
-    'original cells carry an empty idorigin, the deck is closed (every '
-    'referenced surface / cell exists)',
-    'fillid is an integer here: lattices (LatticeSpec) belong to C06',
+    'theorem hypotheses on the parsed table: counters above every key, '
+    'empty caches, no duplicate key, no CellRef and no provenance yet '
+    '(what ParseMCNPCell / construct_volume_t4 produce); results are '
+    'about calls that return Ok (a cyclic reference or self-filling '
+    'universe is RecursionError = the model\'s EFuel)',
+    '"the cells of the other descents are false" needs every universe to '
+    'be a partition (universe_partition / universe_partitionW); no '
+    'totality or acyclicity hypothesis is used',
+    'a negative literal is "not positive": differs from C04\'s strict '
+    'negative side only at points lying on a surface part',
+    'linked statements say something about the converter only for '
+    'transformations with exactly orthonormal rows (C04\'s law); '
+    'near-orthonormal input normalised by adjust_matrix is outside',
+    'LAT: one or several lattice cells developed before the FILL loop; '
+    'the per-element description is stated for one lattice cell',
 ]
 HEADER = ('From Coq Require Import List ZArith Bool.\n'
           'From T4V Require Import C05.Model C05.Exec.\n'
@@ -63,7 +82,13 @@ THEOREMS = ['C05_pot_transform_compl_untouched', 'C05_pot_transform_den',
             'C05_fill_inline_located', 'C05_pipeline_with_lattice_linked',
             'C05_located_through_lattice_linked',
             'C05_precedence_located_linked',
-            'C05_pipeline_with_lattices_linked']
+            'C05_pipeline_with_lattices_linked',
+            'C05_generated_keeps_importance', 'C05_lattice_laws_linked',
+            'C05_pipeline_with_lattices_linked2',
+            'C05_pipeline_with_lattice_linked2',
+            'C05_lattice_elements_accepted_linked',
+            'C05_located_through_lattice_linked2',
+            'C05_precedence_located_linked_spellings']
 
 
 def tie_case_summary(case):
@@ -350,6 +375,9 @@ def sweep(res, rng, n_decks, n_points, tag):
         if i % 9 == 8:
             deck = c05_sweep.gen_like_but_fill(rng)
             res.count(f'{tag}:like-n-but-fill-m')
+        elif i % 9 == 4:
+            deck = c05_sweep.gen_twin_trcl_fill(rng)
+            res.count(f'{tag}:one-universe-several-trcl-containers')
         else:
             deck = c05_sweep.gen_hierarchy(rng)
         # i % 9 and i % 4 are independent: every kind meets every option set
@@ -432,7 +460,8 @@ def run(res, tier, seed, proofs_ok):
         'universe cells that repeat, with the same sense, surfaces bounding '
         'the cell they fill (also through a second level), FILL and cells '
         'unmoved; LIKE n BUT FILL=m TRCL=... copies of a cell whose own FILL '
-        'has a transformation (1 deck in 9); '
+        'has a transformation (1 deck in 9); two or three containers filled '
+        'with the same universe, each placed by its own TRCL (1 deck in 9); '
         'patently empty cells in filling universes; filler cells declared '
         'with U=-n; '
         'IMP=0 level-0 cells), 150+ points per deck; non-trivial = a point '
